@@ -450,6 +450,52 @@ func cbPlan(thorough bool) *plan {
 	return p
 }
 
+// pkgStates are preludes that bring the package REGISTRY into a state a fresh
+// runtime is never in: a package that exports a name it does not bind (the
+// documentation allows exporting before defining), the language package itself
+// doing so, exports given as strings / lists / duplicates, a package whose
+// binding of a language name is not a function, a package that imported from
+// such a package.  Every callable is then called once per bindable arity <= 2
+// with its default arguments, and the callables that take a package or a
+// symbol name over the whole name alphabet.
+var pkgStates = []struct{ name, pre string }{
+	{"export-unbound", "(in-package 'p) (export 'ghost)"},
+	{"export-unbound+bound", "(in-package 'p) (set 'v 1) (defun f () 2) (export 'v 'ghost 'f)"},
+	{"lang-exports-unbound", "(in-package 'lisp) (export 'ghost)"},
+	{"export-forms", "(in-package 'p) (set 'v 1) (export \"v\" '(v v) 'v)"},
+	{"language-name-rebound", "(in-package 'p) (set 'car 5) (set 'set 6) (export 'car 'set)"},
+	{"chain", "(in-package 'p) (set 'v 1) (export 'v) (in-package 'q) (use-package 'p) (export 'v 'w)"},
+}
+
+var pkgNameAlphabet = []string{"'p", "\"p\"", "'q", "'lisp", "'user", "'nosuch", "'ghost", "'v", "'p:ghost", "5", "()", "'(p q)"}
+
+func pkgPlan(thorough bool) *plan {
+	p := &plan{}
+	named := map[string]bool{"lisp:in-package": true, "lisp:use-package": true, "lisp:export": true}
+	for _, st := range pkgStates {
+		for _, c := range registry() {
+			top := c.maxBindable()
+			if top > 2 {
+				top = 2
+			}
+			for n := 0; n <= top; n++ {
+				if !c.bindable(n) {
+					continue
+				}
+				slots := make([][]string, n)
+				for k := range slots {
+					slots[k] = []string{slotDefault(c, k)}
+					if named[c.Q] {
+						slots[k] = pkgNameAlphabet
+					}
+				}
+				p.add(c, st.pre, "PKG/"+st.name+fmt.Sprintf("/n=%d", n), slots)
+			}
+		}
+	}
+	return p
+}
+
 func intsKey(P []int) string {
 	s := make([]string, len(P))
 	for i, x := range P {
@@ -833,6 +879,9 @@ func buildSpace(name string, thorough bool, aux auxData) (*space, error) {
 		return sp, nil
 	case "CB":
 		return planSpace(name, cbPlan(thorough), "sweep-tight", 128, 64), nil
+	case "PKG":
+		// a fresh runtime per case: the prelude changes the registry, and so may the call
+		return planSpace(name, pkgPlan(thorough), "sweep", 256, 0), nil
 	case "V1", "V2":
 		return planSpace(name, closurePlan(aux.Vals, aux.Kinds, thorough && name == "V1", name), "sweep", 2048, 64), nil
 	case "sink-cyclic":
